@@ -100,3 +100,61 @@ Example fail_history_effect :
   c_errq (run eps0 empty_cache fail_history) = [(2%positive, 1%positive)] /\
   (t_status <$> c_heap (run eps0 empty_cache (fail_history ++ [EDrainResync])) !! 1%positive) = Some Pending.
 Proof. repeat split; vm_compute; reflexivity. Qed.
+
+(* ---------- audit round ---------- *)
+From V Require Import C08.Lemmas3.
+
+(* the state the reviewer used: node1 with the running pod1 whose job has no PodGroup.  The
+   node of the snapshot holds a copy of pod1's task, its job is not in the snapshot: read with
+   [s_heap] alone the snapshot fails the consistency law, read with the heap the codec rebuilds
+   from a real dump (tasks of its jobs + copies held by its nodes) it satisfies it *)
+Definition c_w1 : cache := run eps0 empty_cache [ENode node1; EPod pod1].
+Example snapshot_law_needs_node_copies :
+  law_snapshot c_w1 (take_snapshot eps0 c_w1) = false /\
+  law_snapshot c_w1 (full_snapshot eps0 c_w1) = true /\
+  law_snapshot (run eps0 empty_cache fail_history) (full_snapshot eps0 (run eps0 empty_cache fail_history)) = true.
+Proof. repeat split; vm_compute; reflexivity. Qed.
+
+(* a mix of outcomes: one bind succeeds at the API (pod 1), another fails (pod 2) *)
+Definition pod_pending2 : pod := mkPod 2 (Some 2%positive) None PPending false 1 0 false (mk_req 500 1048576 0).
+Definition mixed_history : list event :=
+  [ENode node1; EPG pg2; EPod pod_pending; EPod pod_pending2; EBind 2 1 1 true; EBind 2 2 1 false].
+Example mixed_history_ok : hist_ok4 eps0 empty_cache mixed_history.
+Proof.
+  assert (Hp : pod_ok pod_pending) by (split; [discriminate|]; split; [vm_compute; discriminate|discriminate]).
+  assert (Hp2 : pod_ok pod_pending2) by (split; [discriminate|]; split; [vm_compute; discriminate|discriminate]).
+  simpl. repeat split; auto; try discriminate; try (vm_compute; discriminate);
+    try (intros old H; vm_compute in H; discriminate).
+Qed.
+(* after the drain the failed one is Pending again, the bound one is still Binding and is the
+   only task awaiting its pod notification *)
+Example mixed_history_effect :
+  let c := run eps0 empty_cache (mixed_history ++ [EDrainResync]) in
+  (t_status <$> c_heap c !! 1%positive) = Some Binding /\
+  (t_status <$> c_heap c !! 2%positive) = Some Pending /\
+  await_run eps0 empty_cache ∅ mixed_history = {[1%positive]}.
+Proof. repeat split; try (vm_compute; reflexivity). apply (bool_decide_unpack _). vm_compute. exact I. Qed.
+
+(* non-vacuity of the whole-alphabet convergence theorem: the pod arrives before its node and
+   PodGroup and a bind attempt fails at the API, vs. the objects delivered in another order
+   without any cycle step *)
+Definition conv_h1 : list event := [EPod pod_pending; EPG pg2; ENode node1; EBind 2 1 1 false; EDrainCleanup].
+Definition conv_h2 : list event := [ENode node1; EPG pg2; EPod pod_pending].
+Example conv_hyps :
+  hist_ok4 eps0 empty_cache conv_h1 /\ hist_ok4 eps0 empty_cache conv_h2 /\
+  quiescent eps0 conv_h1 /\ quiescent eps0 conv_h2 /\
+  o_pods (final_objects conv_h1) = o_pods (final_objects conv_h2) /\
+  o_nodes (final_objects conv_h1) = o_nodes (final_objects conv_h2).
+Proof.
+  assert (Hp : pod_ok pod_pending) by (split; [discriminate|]; split; [vm_compute; discriminate|discriminate]).
+  split; [|split].
+  - simpl. repeat split; auto; try discriminate; try (vm_compute; discriminate);
+      try (intros old H; vm_compute in H; discriminate).
+  - simpl. repeat split; auto; try discriminate; try (vm_compute; discriminate);
+      try (intros old H; vm_compute in H; discriminate).
+  - repeat split; apply (bool_decide_unpack _); vm_compute; exact I.
+Qed.
+(* and the failed bind is really visible before the final drain *)
+Example conv_h1_diverges_before_drain :
+  (t_status <$> c_heap (run eps0 empty_cache conv_h1) !! 1%positive) = Some Binding.
+Proof. vm_compute. reflexivity. Qed.
